@@ -521,6 +521,11 @@ func genRanges(t *rapid.T, lines int) []C17Range {
 		a := rapid.IntRange(0, lines).Draw(t, "sl")
 		b := rapid.IntRange(a, lines+1).Draw(t, "el")
 		rg := C17Range{SL: a, EL: b, EC: 100000}
+		if rapid.IntRange(0, 5).Draw(t, "tomax") == 0 {
+			// "to the end of the document" as clients write it: the largest line or character number
+			rg.EL = rapid.SampledFrom([]int{1<<31 - 1, 1<<32 - 2, 1<<32 - 1}).Draw(t, "elmax")
+			rg.EC = rapid.SampledFrom([]int{0, 100000, 1<<32 - 1}).Draw(t, "ecmax")
+		}
 		if rapid.IntRange(0, 2).Draw(t, "mid") == 0 {
 			rg.SC = rapid.IntRange(0, 30).Draw(t, "sc")
 			rg.EC = rapid.IntRange(0, 60).Draw(t, "ec")
@@ -663,8 +668,18 @@ func TestC17Hist(t *testing.T) {
 				c.Texts = append(c.Texts, strings.Join(lines[:k], "")+strings.Join(lines[k+1:], ""))
 			}
 		}
+		nbase := nt
 		nt = len(c.Texts)
 		ndocs := rapid.IntRange(1, 3).Draw(t, "ndocs")
+		if nt > nbase && rapid.Bool().Draw(t, "directed") {
+			// from a text to one derived from it (or back) with a result in hand: the delta has to express
+			// exactly that removal, doubling or emptying
+			a, b := rapid.IntRange(0, nbase-1).Draw(t, "dbase"), rapid.IntRange(nbase, nt-1).Draw(t, "dderived")
+			if rapid.Bool().Draw(t, "dswap") {
+				a, b = b, a
+			}
+			c.Ops = append(c.Ops, C17Op{Op: "change", Doc: 0, Text: a}, C17Op{Op: "full", Doc: 0}, C17Op{Op: "change", Doc: 0, Text: b}, C17Op{Op: "delta", Doc: 0, Prev: "current"})
+		}
 		steps := rapid.IntRange(3, 10).Draw(t, "steps")
 		for s := 0; s < steps; s++ {
 			d := rapid.IntRange(0, ndocs-1).Draw(t, "doc")
